@@ -107,6 +107,8 @@ class Case final : public sim::CaseBase {
       }
       iterator_insert = g.Flip();
       explicit_add = g.Draw(3) == 2;  // Add(n) by hand, then Consume<false>/Attach<false>
+      // Reset of a group that nobody waits on but whose count is not zero (a prepared round that is abandoned): "the same as *this = {}"
+      reset_first = g.Draw(4) == 0;
     }
     owner_done_at[0] = kTimes[g.Draw(6)];
     // second use of the same object: once everything of the first use has returned, Reset (documented as "the same as *this = {}",
@@ -140,6 +142,9 @@ class Case final : public sim::CaseBase {
 
   void Describe(sim::Json& j) const final {
     j.KV("object", bare_event ? "OneShotEvent" : "WaitGroup").KV("pool_workers", pool_workers).KV("owner_releases_at_ns", owner_done_at[0]);
+    if (reset_first) {
+      j.KV("before_first_use", "WaitGroup{3}, then Reset(1)");
+    }
     if (second_round) {
       j.KV("second_round_after", bare_event ? "event.Reset()" : reset_with_count ? "group.Reset(1)" : "group.Reset(); group.Add(1)").KV("owner_releases_second_round_at_ns", owner_done_at[1]);
     }
@@ -262,7 +267,11 @@ class Case final : public sim::CaseBase {
     sim::Proxy px[2] = {{&pool, 1}, {&pool, 2}};
     ex[0] = &px[0];
     ex[1] = &px[1];
-    yaclib::WaitGroup<> group{1};
+    yaclib::WaitGroup<> group{reset_first ? 3U : 1U};
+    if (reset_first) {
+      SIM_PROBE("reset_of_an_abandoned_round");
+      group.Reset(1);
+    }
     yaclib::OneShotEvent event;
     wg = &group;
     ev = &event;
@@ -547,7 +556,7 @@ class Case final : public sim::CaseBase {
   }
 
   bool bare_event = false, iterator_insert = false;
-  bool second_round = false, reset_with_count = false, explicit_add = false;
+  bool second_round = false, reset_with_count = false, explicit_add = false, reset_first = false;
   std::uint32_t pool_workers = 1, owner_done_at[2] = {0, 0};
   std::vector<Waiter> waiters;
   std::vector<Member> members;
